@@ -1,5 +1,6 @@
 import Heathcliff.Proofs.C11N
 import Heathcliff.Proofs.C11P
+import Heathcliff.Proofs.GenAppBatch
 
 /- Property theorems only (statements verbatim; proofs are the helper lemmas of Heathcliff/Proofs). -/
 namespace HC.C11
@@ -73,5 +74,37 @@ theorem batch_encode_decode_of_new : type_of% @HC.batch_encode_decode_of_new := 
 /-- the constructor returns tables only for a prime modulus with 2N | t − 1 -/
 theorem batch_tables_only_for_batching_primes : type_of% @HC.batch_tables_only_for_batching_primes :=
   @HC.batch_tables_only_for_batching_primes
+
+/-! ### translator tie (phase 4h, app mode): `reverse_bits_u64` (src/util/basic.rs) and the `matrix_reps_index_map` loop of
+    `BatchEncoder::new` (src/batch_encoder.rs; a fragment: generator 3, `pos`, `index1`, `index2`, bit reversal) are REGENERATED
+    on every run (`Gen/AppFns.lean`) and proved equal to the model -/
+
+/-- `reverse_bits_u64(x, k)` = `brev k x` for `k ≤ 64`, `x < 2^k` (`64 - bit_count` is a checked subtraction) -/
+theorem gen_reverse_bits_u64_eq : type_of% @HC.ga_reverse_bits_u64_eq := @HC.ga_reverse_bits_u64_eq
+
+/-- the generated index-map loop at `slots = 2^k`, `logn = k` (the values `BatchEncoder::new` passes: `poly_modulus_degree` and its
+    `get_power_of_two`, asserted positive) returns exactly the model's `batchIndexMap k`, `1 ≤ k ≤ 61` -/
+theorem gen_batch_index_map_eq : type_of% @HC.ga_be_index_map_eq := @HC.ga_be_index_map_eq
+
+/-- **one statement from source to mathematics**: the table the GENERATED loop builds is a PERMUTATION of [0, N) whose entry `i` is the
+    NTT position of the evaluation point psi^(slotExp i) (composition with `batchIndexMap_spec` / `batchIndexMap_perm`) -/
+theorem gen_batch_index_map_perm {k : Nat} (hk : 1 ≤ k) (hk2 : k ≤ 61) :
+    ∃ m : List Nat, GenApp.be_index_map (2^k) k = .ok m ∧ m.length = 2^k ∧
+      (∀ i, i < 2^k → m.getD i 0 = brev k ((slotExp k i - 1) / 2) ∧ m.getD i 0 < 2^k) ∧
+      (∀ i j, i < 2^k → j < 2^k → m.getD i 0 = m.getD j 0 → i = j) := by
+  refine ⟨(batchIndexMap k).toList, HC.ga_be_index_map_eq k hk hk2, ?_, ?_, ?_⟩
+  · rw [Array.length_toList]; exact (batchIndexMap_spec hk (Nat.two_pow_pos k)).1
+  · intro i hi
+    have e : (batchIndexMap k).toList.getD i 0 = (batchIndexMap k).getD i 0 := by simp [Array.getD_eq_getD_getElem?]
+    rw [e]
+    exact ⟨(batchIndexMap_spec hk hi).2.1, (batchIndexMap_perm hk).1 i hi⟩
+  · intro i j hi hj h
+    have e : ∀ x, (batchIndexMap k).toList.getD x 0 = (batchIndexMap k).getD x 0 := by intro x; simp [Array.getD_eq_getD_getElem?]
+    rw [e, e] at h
+    exact (batchIndexMap_perm hk).2 i j hi hj h
+
+/-! non-vacuity: the generated loop runs and returns the table of the code (N = 8: [0, 5, 3, 6 | 7, 2, 4, 1]) -/
+example : GenApp.be_index_map 8 3 = .ok (batchIndexMap 3).toList := by rfl
+example : GenApp.reverse_bits_u64 6 3 = .ok 3 := by rfl
 
 end HC.C11
